@@ -6,6 +6,7 @@ import (
 	"bytes"
 	"fmt"
 	"sort"
+	"strings"
 	"time"
 
 	verifrt "github.com/contiv/libOpenflow/verifrt"
@@ -170,12 +171,20 @@ func min(a, b int) int {
 }
 
 // frame alphabet indices (streamFrames order): 0 echo(8) 1 hello(16) 2 error17(17) 3 packet-in 4 error3012 5 role-reply(24, rejected by the parser)
-func c10Scenarios(thorough bool, alphabet []streamFrame) (out []streamScenario, families map[string]int) {
+// The scenarios are generated, not stored (the thorough tier has 2^23 partitions of one byte stream
+// alone): yield is called for every scenario of the families whose name heavy accepts, in a fixed
+// order; the function returns the number of scenarios per family.
+func c10Scenarios(thorough bool, alphabet []streamFrame, heavy func(fam string) bool, yield func(sc streamScenario)) (families map[string]int) {
 	families = map[string]int{}
 	add := func(fam string, sc streamScenario) {
+		if heavy != nil && !heavy(fam) {
+			return
+		}
 		families[fam]++
-		sc.Family = fam
-		out = append(out, sc)
+		if yield != nil {
+			sc.Family = fam
+			yield(sc)
+		}
 	}
 	size := func(seq []int) int {
 		n := 0
@@ -461,23 +470,38 @@ func c10RunScenario(r *ev.Run, sc streamScenario, alphabet []streamFrame, stats 
 
 func c10Worker(w *Worker) {
 	alphabet, _ := streamFrames()
-	scs, _ := c10Scenarios(w.Thorough(), alphabet)
 	stats := map[string]int64{}
-	// heavy scenarios (all-interleavings, recycling) first so that they spread over the workers
-	sort.SliceStable(scs, func(i, j int) bool { return weight(scs[i]) > weight(scs[j]) })
-	for i, sc := range scs {
-		if !w.Mine(int64(i)) {
-			continue
+	// two passes over the (generated, never stored) scenario stream: the heavy families first
+	// (all-interleavings, recycling, failure), dealt round-robin in order of decreasing weight, then
+	// the default-schedule chunking scenarios
+	isSA := func(fam string) bool { return strings.HasPrefix(fam, "S-A") }
+	var heavy []streamScenario
+	c10Scenarios(w.Thorough(), alphabet, func(fam string) bool { return !isSA(fam) }, func(sc streamScenario) { heavy = append(heavy, sc) })
+	sort.SliceStable(heavy, func(i, j int) bool { return weight(heavy[i]) > weight(heavy[j]) })
+	expired := false
+	one := func(i int64, sc streamScenario) {
+		if expired || !w.Mine(i) {
+			return
 		}
 		if w.Expired() {
-			w.Incomplete("scenarios left at the deadline")
-			break
+			w.Incomplete("scenarios left at the deadline (first unexplored: family " + sc.Family + ")")
+			expired = true
+			return
 		}
 		c10RunScenario(w.Run, sc, alphabet, stats)
 		if weight(sc) > 1 && len(sc.Frames) <= 3 {
 			w.Sample(map[string]any{"frames": sc.Frames, "cuts": sc.Cuts, "fail_after": sc.FailAfter, "bound": sc.Bound})
 		}
 	}
+	var idx int64
+	for _, sc := range heavy {
+		one(idx, sc)
+		idx++
+	}
+	c10Scenarios(w.Thorough(), alphabet, isSA, func(sc streamScenario) {
+		one(idx, sc)
+		idx++
+	})
 	orders := 0
 	for k, v := range stats {
 		if len(k) > 6 && k[:6] == "order:" {
@@ -511,7 +535,7 @@ func c10(r *ev.Run, replay string) {
 		r.Set("states", 1)
 		return
 	}
-	_, fam := c10Scenarios(r.Thorough(), alphabet)
+	fam := c10Scenarios(r.Thorough(), alphabet, nil, nil)
 	RunSharded(r, NumWorkers(), false)
 	r.Set("scenario_families", fam)
 	r.Set("frames_left_out", dropped)
